@@ -264,6 +264,10 @@ def main(ctx):
                 return mm(a, b)
             if not ((r == 1 and c == 1)):
                 run(ctx, 'dot', [(r, c, ba), (c, r, bb_)], lambda a, b: M.dot(a, b), dot_spec)
+            if c >= 2:
+                # a row vector times a matrix with several columns, a matrix times a column vector
+                run(ctx, 'dot-rowvec-matrix', [(1, c, ba), (c, 2, bb_)], lambda a, b: M.dot(a, b), mm, exact_ops=True)
+                run(ctx, 'dot-matrix-colvec', [(2, c, ba), (c, 1, bb_)], lambda a, b: M.dot(a, b), mm, exact_ops=True)
             run(ctx, 'transpose', [(r, c, ba)], lambda a: a.transpose(), lambda a: [list(x) for x in zip(*a)])
             run(ctx, 'sum', [(r, c, ba)], lambda a: M.sum(a), lambda a: sum(sum(x) for x in a))
             run(ctx, 'sum0', [(r, c, ba)], lambda a: M.sum(a, axis=0), lambda a: [[sum(col) for col in zip(*a)]])
@@ -277,6 +281,16 @@ def main(ctx):
             run(ctx, 'argmax0', [(r, c, ba)], lambda a: M.argmax(a, axis=0),
                 lambda a: [[list(col).index(max(col)) for col in zip(*a)]])
             run(ctx, 'argmax1', [(r, c, ba)], lambda a: M.argmax(a, axis=1), lambda a: [[row.index(max(row)) for row in a]])
+            # reductions with an explicit result width, narrower or wider than the elements (the result is the true
+            # reduction modulo 2^bits)
+            for nb in sorted({1, max(1, ba - 1), ba + 2}):
+                run(ctx, 'min0-bits', [(r, c, ba)], lambda a, nb=nb: M.min(a, axis=0, bits=nb), lambda a: [[min(col) for col in zip(*a)]])
+                run(ctx, 'min1-bits', [(r, c, ba)], lambda a, nb=nb: M.min(a, axis=1, bits=nb), lambda a: [[min(row) for row in a]])
+                run(ctx, 'max0-bits', [(r, c, ba)], lambda a, nb=nb: M.max(a, axis=0, bits=nb), lambda a: [[max(col) for col in zip(*a)]])
+                run(ctx, 'max1-bits', [(r, c, ba)], lambda a, nb=nb: M.max(a, axis=1, bits=nb), lambda a: [[max(row) for row in a]])
+                run(ctx, 'min-bits', [(r, c, ba)], lambda a, nb=nb: M.min(a, bits=nb), lambda a: min(min(x) for x in a))
+                run(ctx, 'sum0-bits', [(r, c, ba)], lambda a, nb=nb: M.sum(a, axis=0, bits=nb), lambda a: [[sum(col) for col in zip(*a)]])
+                run(ctx, 'sum-bits', [(r, c, ba)], lambda a, nb=nb: M.sum(a, bits=nb), lambda a: sum(sum(x) for x in a))
             run(ctx, 'flatten', [(r, c, ba)], lambda a: a.flatten(), lambda a: [flat(a)])
             run(ctx, 'flattenF', [(r, c, ba)], lambda a: a.flatten(order='F'),
                 lambda a: [[a[i][j] for j in range(len(a[0])) for i in range(len(a))]])
@@ -290,6 +304,9 @@ def main(ctx):
                 run(ctx, 'pow2', [(r, c, min(ba, 4))], lambda a: a ** 2, lambda a: mm(a, a))
                 run(ctx, 'pow0', [(r, c, ba)], lambda a: a ** 0, lambda a: [[int(i == j) for j in range(len(a))] for i in range(len(a))])
                 run(ctx, 'pow1', [(r, c, ba)], lambda a: a ** 1, lambda a: a)
+                run(ctx, 'pow3', [(r, c, min(ba, 3))], lambda a: a ** 3, lambda a: mm(mm(a, a), a))
+                if r <= 2:
+                    run(ctx, 'pow4', [(r, c, min(ba, 2))], lambda a: a ** 4, lambda a: mm(mm(mm(a, a), a), a))
             run(ctx, 'hstack', [(r, c, ba), (r, c, bb_)], lambda a, b: M.hstack(a, b), lambda a, b: [ra + rb for ra, rb in zip(a, b)])
             run(ctx, 'vstack', [(r, c, ba), (r, c, bb_)], lambda a, b: M.vstack(a, b), lambda a, b: a + b)
             run(ctx, 'concatenate0', [(r, c, ba), (r, c, bb_)], lambda a, b: M.concatenate([a, b], axis=0),
@@ -305,6 +322,21 @@ def main(ctx):
                 lambda a, b: [[x * y for x, y in zip(ra, rb)] for ra, rb in zip(a, b)])
             run(ctx, 'roundtrip', [(r, c, ba)], lambda a: M.Matrix(r, c, ba, value=a.to_wirevector()), lambda a: a)
             run(ctx, 'copy', [(r, c, ba)], lambda a: a.copy(), lambda a: a)
+            # a function that returns a matrix returns a new one: writing into the result leaves the operand alone
+            makers = [('hstack1', lambda a: M.hstack(a)), ('vstack1', lambda a: M.vstack(a)),
+                      ('concatenate1-axis0', lambda a: M.concatenate([a], axis=0)),
+                      ('concatenate1-axis1', lambda a: M.concatenate([a], axis=1)),
+                      ('copy', lambda a: a.copy()), ('full-slice', lambda a: a[0:r, 0:c]),
+                      ('reshape-same', lambda a: a.reshape(r, c))]
+            for mname, mk in rng.sample(makers, 3):
+                def b_fresh(a, mk=mk):
+                    s_ = mk(a)
+                    if isinstance(s_, M.Matrix):
+                        s_[0, 0] = pyrtl.Const(1, 1)
+                        s_.put([-1], [pyrtl.Const(0, 1)])
+                        s_ += s_
+                    return a
+                run(ctx, 'operand-after-writing-into:' + mname, [(r, c, ba)], b_fresh, lambda a: a)
 
             def b_setitem(a, b):
                 a2 = a.copy()
